@@ -295,19 +295,22 @@ def check_partial(spec, names, stats):
     stats.case()
     src = 'def f(%s):\n    return 0\n' % universe.spec_text(spec)
     f = realfn.load(src, dict(G), register=False)['f']
-    vals = {k: object() for k in names}
-    p = functools.partial(f, **vals)
-    try:
-        r = signatures.signature(p)
-    except ValueError:
-        stats.cls('partial/raised')
-        return
-    stats.cls('partial')
-    case = {'op': 'partial', 'specs': [list(map(list, spec))], 'args': {'names': list(names)}}
-    for k in names:
-        q = r.parameters.get(k)
-        if q is None or int(q.kind) != KWO or q.default is not vals[k]:
-            stats.fail('C10/partial/bound-keyword', case, 'partial(f(%s), %s) -> %s: %s should be keyword-only with the bound object as default' % (universe.spec_text(spec), list(names), r, k))
+    # bound values: fresh objects, and the values most likely to be mistaken for "nothing bound"
+    for variant, special in (('fresh', None), ('falsy', [None, 0, '', False, ()])):
+        vals = {k: (object() if special is None else special[i % len(special)]) for i, k in enumerate(names)}
+        p = functools.partial(f, **vals)
+        try:
+            r = signatures.signature(p)
+        except ValueError:
+            stats.cls('partial/raised')
+            return
+        stats.cls('partial/' + variant)
+        case = {'op': 'partial', 'specs': [list(map(list, spec))], 'args': {'names': list(names)}}
+        for k in names:
+            q = r.parameters.get(k)
+            if q is None or int(q.kind) != KWO or q.default is not vals[k]:
+                stats.fail('C10/partial/bound-keyword/' + variant, case, 'partial(f(%s), %s) -> %s: %s should be keyword-only with the bound object %r as default' % (
+                    universe.spec_text(spec), ', '.join('%s=%r' % kv for kv in vals.items()), r, k, vals[k]))
     if names:
         stats.nontriv(('partial', universe.spec_text(spec), tuple(names)))
         stats.sample('partial', {'function': universe.spec_text(spec), 'bound': list(names), 'result': str(r)})
